@@ -57,7 +57,7 @@ Definition w_go_unused : schema :=
 (* [empty-struct]  message Hollow {} *)
 Definition w_empty_struct : schema := [mkFile "m" "m" [] no_opts [DMsg "Hollow" false [] []]].
 
-(* [align-nonpow2]  option c.struct_packing_alignment = 3 *)
+(* [align-nonpow2, FIXED]  option c.struct_packing_alignment = 3: no longer an accepted schema *)
 Definition w_align : schema :=
   [mkFile "m" "m" [] (mkOpts "" 3%Z "" "") [DMsg "A" false [] [fbool "b" 1]]].
 
@@ -87,7 +87,7 @@ Definition inside_pre (s : schema) : bool :=
 
 Lemma witnesses_inside_pre :
   forallb inside_pre [w_helper; w_helper_alias; w_derived; w_import; w_nested; w_twohop; w_go_unused;
-                      w_empty_struct; w_align; w_empty_enum; w_empty_enum_unused; w_str; w_attr] = true.
+                      w_empty_struct; w_empty_enum; w_empty_enum_unused; w_str; w_attr] = true.
 Proof. vm_compute. reflexivity. Qed.
 
 Definition tu_unique (s : schema) (i : nat) (t : target) : bool :=
@@ -115,8 +115,13 @@ Lemma go_unused_import_refuted : go_imports_used_b (render_items w_go_unused 0 T
 Proof. vm_compute. reflexivity. Qed.
 Lemma empty_struct_refuted : structs_nonempty_b (render_items w_empty_struct 0 TgH []) = false.
 Proof. vm_compute. reflexivity. Qed.
-Lemma align_refuted : align_valid (o_calign (f_opts (getf w_align 0))) = true /\ g_align w_align 0 = false.
-Proof. vm_compute. split; reflexivity. Qed.
+(* the former witness of [align-nonpow2] is now REJECTED: the translated validator refuses 3, 5, 6
+   and 7, so the schema is not well-formed (and gcc would still refuse it: g_align is false) *)
+Lemma align_rejected :
+  wf w_align = false /\ g_align w_align 0 = false /\
+  forallb (fun v => negb (align_valid v)) [3; 5; 6; 7; 9; -1]%Z = true /\
+  forallb align_valid [0; 1; 2; 4; 8]%Z = true.
+Proof. vm_compute. repeat split; reflexivity. Qed.
 (* regression cases of the two FIXED findings [empty-enum] and [str-escape]: the model now
    predicts that the Python renderer does not raise and that every check passes *)
 Lemma empty_enum_fixed :
